@@ -32,7 +32,7 @@ def full_dump(db):
 
 class C08(vlib.Check):
     id = "C08"
-    props_modules = ["E3fpVerif.Props.C08"]
+    props_modules = ["E3fpVerif.Props.C08", "E3fpVerif.Props.C08Runs"]
     gen_items = ["fprint_fold", "db_io"]
     stateful_driver = True
     rule = ("seeded non-empty databases of the three kinds (bits 1..2^32, any level and name, str/None/duplicate fingerprint "
